@@ -3109,8 +3109,13 @@ evhttp_make_request(struct evhttp_connection *evcon,
 
 	TAILQ_INSERT_TAIL(&evcon->requests, req, next);
 
-	/* We do not want to conflict with retry_ev */
-	if (evcon->retry_cnt)
+	/* We do not want to conflict with retry_ev: while it is pending it
+	 * will make the connection.  (It is not pending any more when the
+	 * attempt it stood for was started early, by a cancelled request
+	 * making room for the next one, and abandoned again; then nobody else
+	 * is going to connect.) */
+	if (evcon->retry_cnt && event_initialized(&evcon->retry_ev) &&
+	    evtimer_pending(&evcon->retry_ev, NULL))
 		return (0);
 
 	/* If the connection object is not connected; make it so */
